@@ -176,7 +176,7 @@ NEAR_ONE = "1048575/1048576"          # 1 - 2^-20
 
 def gen_repr(rng, chain=False):
     """input representation / planner options of the impl runner (harness/impl/c04_impl.py)"""
-    rp = {"labels": rng.choice(["int"] * 5 + ["str", "str", "tuple", "tuple", "falsy", "falsy"]),
+    rp = {"labels": rng.choice(["int"] * 5 + ["str", "str", "tuple", "tuple", "falsy", "falsy", "none", "none"]),
           "dist_objects": rng.random() < .3, "actions_tuple": rng.random() < .7, "actions_shared": rng.random() < .4,
           "dist_shared": rng.random() < .3, "fresh_planner_last": chain and rng.random() < .4,
           "init": rng.choice(["object", "object", "callable", "initial_state"]),
@@ -185,7 +185,7 @@ def gen_repr(rng, chain=False):
         rp["seed_none"] = True
     if rng.random() < .06:
         rp["max_trial_length"] = rng.choice([1, 2, 5])
-    if rp["labels"] != "falsy" and rng.random() < (.5 if chain else .2):
+    if rp["labels"] not in ("falsy", "none") and rng.random() < (.5 if chain else .2):
         rp["touch_views"] = True             # tabular views sort the labels: not with mixed-type labels
     return rp
 
@@ -815,6 +815,20 @@ def gen_long_trial(rng, tier):
             "repr": dict(gen_repr(rng), max_trial_length=None), "tags": ["long_trials"]}
 
 
+def none_action_scenarios():
+    """the action labelled None ("wait") is optimal at the start state (-2 straight to the goal) while the one-step
+    look-ahead on the raw heuristic 0 prefers 'push' (-1 to x, whose true value is -10): anything that mistakes
+    a stored None for "no entry" falls back to that look-ahead"""
+    mc = {"n": 3, "nA": 2, "actions": [[0, 1], [0, 1], [0, 1]],
+          "trans": {"0,0": [[2, "1"]], "0,1": [[1, "1"]], "1,0": [[1, "1/2"], [2, "1/2"]], "1,1": [[2, "1"]],
+                    "2,0": [[2, "1"]], "2,1": [[2, "1"]]},
+          "reward": {"0,0,2": "-2", "0,1,1": "-1", "1,0,1": "-5", "1,0,2": "-5", "1,1,2": "-12"},
+          "absorbing": [False, False, True], "init": [[0, "1"]], "gamma": "1"}
+    return [{"mdp": mc, "heuristic": ["0", "0", "0"], "kind": "scenario-none-action", "margin": "1/1000", "seed": seed,
+             "randomize": bool(seed % 2), "iterations": 4000, "max_log": 600, "tags": [],
+             "repr": {"labels": "none", "actions_tuple": bool(seed // 2 % 2)}} for seed in range(4)]
+
+
 def regression_cases():
     """fixed inputs on which msdm's LRTDP violated the property before the fix commits (must pass now,
     must fire if a defect returns)"""
@@ -862,7 +876,7 @@ def run(ctx):
     else:
         cases = [gen_case(ctx.rng, tier) for _ in range(ncases)] + regression_cases() \
             + [gen_chain(ctx.rng, tier) for _ in range(nchains)] \
-            + [gen_routing(ctx.rng, tier) for _ in range(nrouting)] + tie_scenarios() + shared_list_scenarios() \
+            + [gen_routing(ctx.rng, tier) for _ in range(nrouting)] + tie_scenarios() + shared_list_scenarios() + none_action_scenarios() \
             + [gen_tight(ctx.rng, tier) for _ in range(ntight)] \
             + [gen_corridor(ctx.rng, tier) for _ in range(6 if tier == "quick" else 100)] \
             + [gen_long_trial(ctx.rng, tier) for _ in range(2 if tier == "quick" else 20)]
@@ -876,7 +890,7 @@ def run(ctx):
     cnt = {k: 0 for k in ["cases", "cert_checks", "replays", "replay_ops", "predictions", "predicted_calls",
                           "nonmonotone", "nonmonotone_cert_ok", "nonmonotone_cert_rejects", "nonadmissible_skipped",
                           "returned_policy_differs_from_labelled_greedy", "untouched_labelled_states",
-                          "recomputed_greedy_differs_from_recorded_action", "regression_cases", "replay_skipped_long", "chain_steps", "chain_later_steps", "soft_unfinished", "exact_ties_distinct_successors", "margin_below_1e-9_of_values", "margin_below_1e-5_of_values", "n_equals_nA", "single_action_everywhere", "trial_steps_over_1000", "max_states",
+                          "recomputed_greedy_differs_from_recorded_action", "regression_cases", "replay_skipped_long", "chain_steps", "chain_later_steps", "soft_unfinished", "exact_ties_distinct_successors", "margin_below_1e-9_of_values", "margin_below_1e-5_of_values", "n_equals_nA", "none_action_returned_at_labelled_state", "single_action_everywhere", "trial_steps_over_1000", "max_states",
                           "absorbing_initial_mass", "zero_prob_initial_entry", "converged_attr_missing",
                           "absorbing_untouched_reads_heuristic", "prediction_near_margin", "log_overflow",
                           "trials_total", "checks_failed_then_updated"]}
@@ -914,6 +928,8 @@ def run(ctx):
         cnt["margin_below_1e-9_of_values"] += int(p.margin * 10**9 < p.scale)
         cnt["margin_below_1e-5_of_values"] += int(p.margin * 10**5 < p.scale)
         cnt["n_equals_nA"] += int(p.n == p.nA)
+        cnt["none_action_returned_at_labelled_state"] += int((case.get("repr") or {}).get("labels") == "none"
+                                                              and any(p.live[s] and p.pi[s] == 0 for s in range(p.n)))
         cnt["single_action_everywhere"] += int(p.nA == 1)
         cnt["trial_steps_over_1000"] += int(res["trials"] > 0 and res["steps"] / res["trials"] > 1000)
         cnt["max_states"] = max(cnt["max_states"], p.n)
